@@ -91,6 +91,8 @@ def run_property(prop, tier, replay=None):
             for c in ('dcbor', 'bc_components'):
                 deps[c] = factsmod.Facts(paths[c])
         ctx = Ctx(prop, tier, cfg, F, deps, th)
+        from . import lib as _lib
+        _lib.CURRENT_FACTS[0] = F
         required = getattr(mod, 'REQUIRES', [])
         if not ctx.has(*required):
             skipped.append({'inst': '*', 'why': 'configuration lacks features %s: property mechanism compiled out' % required, 'config': cfg})
